@@ -52,13 +52,6 @@ def size_class(tags, mode, st, p):
             return "C03-two-byte-opcode-size"
         if st[1] in ("INC", "DEC", "NEG", "ADC", "SBB", "MUL", "DIV", "IDIV"):
             return "C03-unimplemented-sized"
-    mem = tags.get("mem")
-    if mem and tags.get("asize") == 32 and mem["base"] == "EBP" and not mem["index"] and mem["disp"] in (None, 0):
-        return "C03-ebp-disp8-size"                       # [EBP] needs a disp8 of 0 that pass 1 does not count
-    if mem and tags.get("asize") == 32 and mode == 32 and mem["base"] is None and mem["index"] and mem["disp"] in (None, 0):
-        return "C03-index-without-base-disp32-size"      # [index*scale] needs a disp32 that pass 1 does not count
-    if mem and tags.get("asize") == 32 and mode == 16:
-        return "C03-bits16-32bit-addressing-size"        # SIB / disp32 not counted by pass 1 in 16-bit mode
     return None
 
 
